@@ -50,7 +50,7 @@ CHECKS = {
         design="DESIGN.md §4 C06",
     ),
     "C07": dict(
-        category="exploration",
+        category="model_checking",
         text="On the real FileImportResolver (search path assembled by the real MiscOpts::import_resolver through clap and JSONNET_PATH) over a scratch directory tree, behind a recording and fault-injecting wrapper: every placement of a file over importer dir/-J dirs/JSONNET_PATH dirs x every flag order x kind x path spelling x importer location against the search-order model; every import digraph over three files with strict/lazy-read/lazy-unread/importstr/importbin edges against the reference interpreter plus load-once, evaluate-once and needed-files-only invariants; every history of imports (13 targets x 3 kinds, incl. syntax/runtime errors, strict and lazy cycles, missing, directory, non-UTF-8, symlink and dotted spellings) and one-shot resolve/load faults on a persistent State against the fresh-state outcome of each operation, plus a breadth-first search over merged model states.",
         note="Trusted: the search-order model (40 lines), the cache model of the histories, the reference interpreter for graph results. Unreadable (mode 000) targets are not enumerated (harness runs as root). async_import.rs is not driven.",
         technique=MC_TECH + " (exhaustive layouts x graphs; explicit-state exploration of import/fault histories on the real State, differential against fresh-state outcomes)",
@@ -113,7 +113,7 @@ CHECKS = {
         design="DESIGN.md §4 C15",
     ),
     "C16": dict(
-        category="exploration",
+        category="model_checking",
         text="A corpus built to contain an enumeration or a choice (field listings in every declaration order, suggestion lists with equally similar candidates, several independent failures, duplicate keys, top-level calls with several missing/unknown arguments, recursion at the frame limit, all 2-layer inheritance chains over 5 member kinds) evaluated in a fresh thread per hash salt under every salt (32 quick / 256 thorough) x pre-interned pool {0,1,100,10000}, and after every history (<= 2 quick / 3 thorough) over {success, runtime error, frame-limit error, failing assert, object assert failure, large allocation} on the same and on a fresh State: byte-identical result / CompactFormat error text. The real executable is run 3 times per program: identical stdout, stderr, exit code.",
         note="Trusted: the hash-salt seam (hooks) reaches every map keyed by interned strings; the evidence reports the number of distinct probe-map iteration orders (must exceed 1).",
         technique=MC_TECH + " (explicit enumeration of hash orders via a salt seam x address layouts x evaluation histories, differential against the first observation; repeated fresh processes)",
@@ -127,7 +127,7 @@ CHECKS = {
         design="DESIGN.md §4 C17",
     ),
     "C18": dict(
-        category="exploration",
+        category="model_checking",
         text="(collector) Every evaluable generated program (<= k constructs), every 2-layer inheritance chain and a list of cyclic structures ending in a value, an error, an assertion failure and the frame limit: after dropping result and State and collecting cycles on the worker thread, the tracked-object count is back at its value before the evaluation. (interner) Every history of <= 3 (thorough 4) operations over 44 operations on 3 handle slots and 4 contents (intern_str/intern_bytes/From<char>/clone/drop/cast_bytes/cast_str/pool hand-over to the same and a new OS thread), plus a breadth-first search over all model states to the fixed point with every operation tried from every state: equality <=> equal contents, contents intact, cast_str fails exactly on invalid UTF-8, pool (hook) = distinct live contents, empty when all handles are dropped.",
         note="Trusted: jrsonnet-gcmodule's count_thread_tracked() as the observation of tracked objects; the interner model (slot kind + content).",
         technique=MC_TECH + " (all generated programs for the collector; explicit-state exploration of interner operation histories against an executable model, merged BFS to fixed point + unmerged bounded histories)",
